@@ -196,6 +196,10 @@ def run(chk):
                 "or NETWORK_ACK transmissions fail (lost packets or lost ACKs), fragment aborts at fragments 1..6, loop-back "
                 "writes, multicasts from every node to every level, node_address / multicast_level re-assignment mid-traffic, "
                 "routing-only relays; EVERY public return of EVERY node is judged; distinct = scenarios")
+    # executions followed by the L2 model (TraceNetNode.tla): concurrent writes, backlogs, failing hops - C07.Listening is
+    # evaluated there at every return and for every node at quiescence
+    from checks import netnode
+    netnode.conform(chk, chk.tier == "quick")
     jobs = build(chk)
     with ProcessPoolExecutor(16) as ex:
         traces = list(ex.map(scenario, jobs, chunksize=4))
